@@ -6,7 +6,7 @@
     LKCD and S390 probes and the magic-number-only stubs (todo.c).
     No proofs in this file. *)
 From Coq Require Import NArith ZArith List Bool.
-From KdV Require Import Parse.Bounded Parse.NotesModel Parse.ElfModel Parse.FlatInit Parse.SizesModel.
+From KdV Require Import Parse.Bounded Parse.NotesModel Parse.PElfModel Parse.FlatInit Parse.SizesModel.
 Import ListNotations.
 Local Open Scope N_scope.
 
